@@ -13,9 +13,9 @@ SITE = "nanite.fit.IndentationFitter.fit"
 SITE_OPT = "nanite.fit.IndentationFitter.compute_opt_mindelta"
 
 
-def base_curve(seed=0, n_app=90, n_ret=45):
+def base_curve(seed=0, n_app=90, n_ret=45, cp=2e-7):
     rng = np.random.default_rng(seed)
-    true = fits.default_params("hertz_para", contact_point=2e-7, E=4000.0)
+    true = fits.default_params("hertz_para", contact_point=cp, E=4000.0)
     return fits.model_curve("hertz_para", true, n_app=n_app, n_ret=n_ret,
                             noise=2e-11, rng=rng)
 
@@ -103,9 +103,15 @@ def check_relative(run):
     n = 12 if run.tier == "quick" else 150
     exprs, descr = [], []
     for i in range(n):
-        cols = base_curve(seed=100 + i)
+        cols = base_curve(seed=100 + i, cp=-2e-7 if i % 4 == 3 else 2e-7)
         a = run.rng.choice([-2e-6, -1e-6, -5e-7, -1.5e-6])
         b = run.rng.choice([1e-6, 5e-7, 2e-6, 0.0])
+        # one-sided intervals stay one-sided when anchored at the contact
+        # point
+        if i % 4 == 1:
+            a = float("-inf")
+        elif i % 4 == 3:
+            b = float("inf")
         k = run.rng.choice([1.0, 1.0, 0.5])
         segment = run.rng.choice([0, 0, 1])
         cfg = {"range_x": [a, b], "gcf_k": k, "segment": segment,
